@@ -1220,6 +1220,15 @@ def _shape_battery(ctx, rng, N, c, a, soft):
     else:
         ctx.call("cylindrical_mask", cm.cylindrical_mask, size, radius=big, height=2 * r + int(rng.integers(0, 2)), center=cen)
     n_calls += 3
+    if c is None:                                      # documented defaults on this box
+        ctx.call("spherical_mask", cm.spherical_mask, size)
+        ctx.call("cylindrical_mask", cm.cylindrical_mask, size)
+        ctx.call("cylindrical_mask", cm.cylindrical_mask, size, height=3)
+        ctx.call("spherical_shell_mask", cm.spherical_shell_mask, size, 2)
+        n_calls += 4
+        if even:
+            ctx.call("ellipsoid_mask", cm.ellipsoid_mask, size)
+            n_calls += 1
     if soft:
         ctx.call("spherical_mask", cm.spherical_mask, size, radius=r, center=cen, gaussian=0.6)
         ctx.call("cylindrical_mask", cm.cylindrical_mask, size, radius=r if a < 2 else big, height=2 * N[2] + 1 if a < 2 else 2 * r, center=cen,
